@@ -68,5 +68,5 @@ pub fn fuzz_read_adapter(data: &[u8]) -> Result<(), vf_core::Fail> {
     let keep_going = rest.len() % 2 == 1;
     let case = SeqCase { data: vf_core::hex(&rest[..rest.len().min(2000)]), chunks, ops, keep_going };
     let mut obs = vf_core::Obs::default();
-    Seq { huge: false, excl: Excl { slice: false, array: false } }.check(&case, &mut obs)
+    Seq { huge: false, excl: Excl { slice: false, array: false }, long: false }.check(&case, &mut obs)
 }
